@@ -2,6 +2,7 @@
 mod c02;
 mod c03;
 mod c04;
+mod c05;
 mod c06;
 mod c07;
 mod c08;
@@ -74,6 +75,7 @@ fn main() {
         "C02" => c02::run(&ctx),
         "C03" => c03::run(&ctx),
         "C04" => c04::run(&ctx),
+        "C05" => c05::run(&ctx),
         "C06" => c06::run(&ctx),
         "C07" => c07::run(&ctx),
         "C08" => c08::run(&ctx),
@@ -97,6 +99,7 @@ fn replay(id: &str, v: &serde_json::Value) -> i32 {
         "C02" => c02::replay(v),
         "C03" => c03::replay(v),
         "C04" => c04::replay(v),
+        "C05" => c05::replay(v),
         "C06" => c06::replay(v),
         "C07" => c07::replay(v),
         "C08" => c08::replay(v),
